@@ -374,6 +374,8 @@ def _worker_main(conn, modname, tier, seed, shard, nshards, open_keys, findings)
     except Exception:
         pass
     try:
+        import warnings
+        warnings.filterwarnings("ignore", module="hypothesis")
         mod = importlib.import_module(modname)
         plan = mod.plan(tier)
         w = Worker(mod, tier, seed, shard, nshards, plan, set(open_keys))
